@@ -27,6 +27,7 @@ CHUNK = 1
 def plan(ctx):
     items = [('paced', engine.stable_hash((ctx.seed, 'c11', i))) for i in range(ctx.n(130, 3000))]
     items += [('memory', engine.stable_hash((ctx.seed, 'c11m', i))) for i in range(ctx.n(3, 12))]
+    items += [('subcommand', engine.stable_hash((ctx.seed, 'c11s', i))) for i in range(ctx.n(12, 300))]
     return items
 
 
@@ -207,6 +208,8 @@ def run_item(item):
     rng = engine.item_rng(seed)
     if kind0 == 'memory':
         return run_memory(rng)
+    if kind0 == 'subcommand':
+        return run_subcommand_paced(rng)
     lines, roles, opts, buf, view, kind, tagged = make_case(rng)
     args = gen.to_args(opts)
     blines = [l.encode() for l in lines]
@@ -316,6 +319,167 @@ def run_item(item):
                  sample={'view': view, 'line_buffer_size': buf, 'k': k + 1, 'input_line': lines[k][:60], 'bytes_written': len(written)} if k == len(blines) // 2 else None)
         o['executions'] = 1
         outs.append(o)
+    return outs
+
+
+def _descendants(pid):
+    out = []
+    try:
+        with open('/proc/%d/task/%d/children' % (pid, pid)) as f:
+            kids = [int(x) for x in f.read().split()]
+    except (OSError, ValueError):
+        return out
+    for k in kids:
+        out.append(k)
+        out += _descendants(k)
+    return out
+
+
+def _comm(pid):
+    try:
+        with open('/proc/%d/comm' % pid) as f:
+            return f.read().strip()
+    except OSError:
+        return ''
+
+
+def _blocked_in_read(pid, waiting_calls=('0',)):
+    """The main thread sleeps in read() (or, with waiting_calls given, in another call that waits for input or for a child:
+    poll 7, ppoll 271, epoll_wait 232, wait4 61)."""
+    try:
+        with open('/proc/%d/task/%d/stat' % (pid, pid)) as f:
+            st = f.read().rsplit(')', 1)[1].split()
+        if st[0] != 'S':
+            return False
+        with open('/proc/%d/task/%d/syscall' % (pid, pid)) as f:
+            sc = f.read().split()
+        return len(sc) >= 1 and sc[0] in waiting_calls
+    except (OSError, ValueError, IndexError):
+        return False
+
+
+def run_subcommand_paced(rng):
+    """delta starts the producer itself (delta git show): the rendering keeps up with the producer there too.  A stand-in git
+    copies a FIFO that the check writes line by line; quiescence = FIFO drained, the copying process and delta's main thread
+    both asleep in read()."""
+    s = gen.gen_section(rng, 'modified', simple_paths=True, maxlines=4, maxlen=30)
+    for h in s.hunks:
+        new = []
+        for j in range(rng.randint(2, 4)):
+            new.append((' ', gen.rand_text(rng, 30, allow_empty=False, tabs_ok=False)))
+            new += [('-', gen.rand_text(rng, 30, allow_empty=False, tabs_ok=False)) for _ in range(rng.randint(0, 2))]
+            new += [('+', gen.rand_text(rng, 30, allow_empty=False, tabs_ok=False)) for _ in range(rng.randint(0, 2))]
+        h.lines = new
+    d = gen.Diff([s])
+    rl = d.role_lines()
+    opts = gen.tagged_styles()
+    opts.update({'--paging': 'never', '--syntax-theme': 'none'})
+    if rng.random() < 0.4:
+        opts['--line-numbers'] = True
+    w = runner.workdir()
+    fifo = os.path.join(w, 'tmp', 'c11fifo.%d.%d' % (os.getpid(), int(time.time() * 1e6)))
+    os.mkfifo(fifo)
+    env = runner.base_env({'VERIF_STUB_OUT': fifo}, path_prefix=os.path.join(runner.STUBS, 'bin'))
+    args = gen.to_args(opts) + ['git', 'show']
+    script = ' '.join(shlex.quote(a) for a in [runner.binary()] + args) + '; rc=$?; exit $rc'
+    argv = [runner.NEUTRAL_PARENT[0], '-c', script] + runner.NEUTRAL_PARENT[1:]
+    proc = subprocess.Popen(argv, executable='/bin/sh', stdin=subprocess.DEVNULL, stdout=subprocess.PIPE, stderr=subprocess.PIPE, env=env,
+                            cwd=os.path.join(w, 'cwd'), bufsize=0, start_new_session=True)
+    sets = {'views': ['unified'], 'kinds': ['subcommand:git-show'], 'buffer_sizes': ['32'], 'output_to': ['stdout']}
+    outs = []
+    wfd = None
+    try:
+        # (opening the FIFO for writing returns when the stand-in's cat has opened it for reading)
+        t0 = time.time()
+        while wfd is None and time.time() - t0 < 10:
+            try:
+                wfd = os.open(fifo, os.O_WRONLY | os.O_NONBLOCK)
+            except OSError:
+                time.sleep(0.005)
+        if wfd is None:
+            return [inconclusive('the stand-in producer did not open the FIFO', sets=sets)]
+        fl = fcntl.fcntl(proc.stdout.fileno(), fcntl.F_GETFL)
+        fcntl.fcntl(proc.stdout.fileno(), fcntl.F_SETFL, fl | os.O_NONBLOCK)
+        written = b''
+
+        def drain():
+            nonlocal written
+            while True:
+                try:
+                    dd = os.read(proc.stdout.fileno(), 1 << 16)
+                except BlockingIOError:
+                    return
+                if not dd:
+                    return
+                written += dd
+
+        # (however delta waits for its producer: in read(), in poll(), for the child ...)
+        WAITING = ('0', '7', '271', '232', '61')
+
+        def quiesce():
+            deadline = time.time() + 10
+            while time.time() < deadline:
+                if proc.poll() is not None:
+                    return False
+                ds = _descendants(proc.pid)
+                delta_pid = next((p_ for p_ in ds if _comm(p_) == 'delta'), None)
+                cat_pid = next((p_ for p_ in ds if _comm(p_) == 'cat'), None)
+                if delta_pid and cat_pid and fionread(wfd) == 0 and _blocked_in_read(cat_pid) and _blocked_in_read(delta_pid, WAITING):
+                    drain()
+                    time.sleep(0.002)
+                    if fionread(wfd) == 0 and _blocked_in_read(cat_pid) and _blocked_in_read(delta_pid, WAITING):
+                        drain()
+                        return True
+                drain()
+                time.sleep(0.0005)
+            return False
+        hunk_lines = 0
+        open_run = 0
+        snaps = []
+        for role, l in rl:
+            os.write(wfd, l.encode() + b'\n')
+            if not quiesce():
+                return [inconclusive('quiescence not reached in subcommand mode', sets=sets)]
+            if role == 'hunkheader':
+                open_run = 0
+            if role == 'hunk':
+                hunk_lines += 1
+                open_run = open_run + 1 if l[:1] in '+-' else 0
+                shown = sum(1 for i_ in rows.classify_all(written) if i_.kind == 'code')
+                pending = hunk_lines - shown
+                if pending > open_run:
+                    return [violated('c11:subcommand:lag-exceeds-open-run', 'delta git show: after %d producer lines %d hunk lines are not yet written although the open run of '
+                                     'changed lines is only %d long (the producer is still running)' % (len(snaps) + 1, pending, open_run), open_run, pending, sets=sets,
+                                     extra={'written_bytes': len(written)})]
+            snaps.append(written)
+            o = held(sig=('subcommand', tuple(r for r, _ in rl), len(snaps)), nontrivial=role == 'hunk', counters={'prefix_points': 1, 'subcommand_points': 1}, sets=sets)
+            o['executions'] = 1
+            outs.append(o)
+        os.close(wfd)
+        wfd = None
+        t0 = time.time()
+        while proc.poll() is None and time.time() - t0 < 20:
+            drain()
+            time.sleep(0.002)
+        drain()
+        for sn in snaps:
+            if not written.startswith(sn):
+                return [violated('c11:subcommand:not-prefix-of-final', 'what delta git show had written at a pause is not a prefix of its final output', None, None, sets=sets)]
+    finally:
+        if wfd is not None:
+            os.close(wfd)
+        if proc.poll() is None:
+            try:
+                os.killpg(proc.pid, 9)
+            except OSError:
+                pass
+        proc.stdout.close()
+        proc.stderr.close()
+        proc.wait()
+        try:
+            os.unlink(fifo)
+        except OSError:
+            pass
     return outs
 
 
